@@ -242,6 +242,34 @@ theorem C10_deps_self_iff_cycle (es : List Entry) (id : Nat) (d : List Nat) (h :
 
 /-! ## loadInstance -/
 
+/-- the invariant of the top-level loader states: from the empty cache every history ends in a well-formed cache without
+    half-read objects that contains every requested instance of the file -/
+theorem loadAll_spec (es : List Entry) (fuel : Nat) (hf : es.length < fuel) :
+    ∀ (ids : List Nat) (c0 : Cache), WF es c0 → (∀ x, isPend c0 x = false) →
+      ∃ c, loadAll true es fuel c0 ids = .ok (c, ids.map (known es)) ∧ Ext c0 c ∧ WF es c ∧
+        (∀ x, isPend c x = false) ∧ (∀ id ∈ ids, known es id = true → c.has id = true) := by
+  intro ids
+  induction ids with
+  | nil => intro c0 hw hp; exact ⟨c0, rfl, Ext.refl _, hw, hp, fun _ h => by cases h⟩
+  | cons i t ih =>
+    intro c0 hw hp
+    have hu : U es c0 < fuel := by
+      have : U es c0 ≤ es.length := by unfold U; exact List.length_filter_le _ _
+      omega
+    obtain ⟨c1, h1, e1, w1, p1, k1⟩ := load_spec es fuel c0 i hu hw
+    have hp1 : ∀ x, isPend c1 x = false := by
+      intro x
+      cases hx : isPend c1 x with
+      | false => rfl
+      | true => have := p1 x hx; rw [hp x] at this; cases this
+    obtain ⟨c2, h2, e2, w2, p2, k2⟩ := ih c1 w1 hp1
+    refine ⟨c2, ?_, e1.trans e2, w2, p2, ?_⟩
+    · simp only [loadAll, h1, h2, List.map_cons]
+    · intro id hid hk
+      rcases List.mem_cons.mp hid with h | h
+      · subst h; exact e2 _ (k1 hk)
+      · exact k2 id h hk
+
 /-- Any history of `loadInstance` calls (any order, with repetitions, including ids the file does not have), for any
     population — cyclic ones included: every call returns (no unbounded recursion, fuel = number of instances + 1
     suffices), returns non-null exactly for the ids in the file, every requested instance is in the cache, and every
@@ -253,39 +281,52 @@ theorem C10_load_any_order (es : List Entry) (ids : List Nat) (fuel : Nat) (hf :
       (∀ id ∈ ids, known es id = true → c.has id = true) := by
   have hcb : cacheBeforeRead = true := rfl
   rw [hcb]
-  have key : ∀ (ids : List Nat) (c0 : Cache), WF es c0 → (∀ x, isPend c0 x = false) →
-      ∃ c, loadAll true es fuel c0 ids = .ok (c, ids.map (known es)) ∧ Ext c0 c ∧ WF es c ∧
-        (∀ x, isPend c x = false) ∧ (∀ id ∈ ids, known es id = true → c.has id = true) := by
-    intro ids
-    induction ids with
-    | nil => intro c0 hw hp; exact ⟨c0, rfl, Ext.refl _, hw, hp, fun _ h => by cases h⟩
-    | cons i t ih =>
-      intro c0 hw hp
-      have hu : U es c0 < fuel := by
-        have : U es c0 ≤ es.length := by unfold U; exact List.length_filter_le _ _
-        omega
-      obtain ⟨c1, h1, e1, w1, p1, k1⟩ := load_spec es fuel c0 i hu hw
-      have hp1 : ∀ x, isPend c1 x = false := by
-        intro x
-        cases hx : isPend c1 x with
-        | false => rfl
-        | true => have := p1 x hx; rw [hp x] at this; cases this
-      obtain ⟨c2, h2, e2, w2, p2, k2⟩ := ih c1 w1 hp1
-      refine ⟨c2, ?_, e1.trans e2, w2, p2, ?_⟩
-      · simp only [loadAll, h1, h2, List.map_cons]
-      · intro id hid hk
-        rcases List.mem_cons.mp hid with h | h
-        · subst h; exact e2 _ (k1 hk)
-        · exact k2 id h hk
-  obtain ⟨c, h, _, w, p, k⟩ := key ids [] (fun o ho => by cases ho) (fun x => rfl)
+  obtain ⟨c, h, _, w, p, k⟩ := loadAll_spec es fuel hf ids [] (fun o ho => by cases ho) (fun x => rfl)
   refine ⟨c, h, ?_, k⟩
   intro o ho
   refine ⟨(w o ho).1, ?_⟩
-  rcases (w o ho).2 with h0 | h0
+  rcases (w o ho).2.1 with h0 | h0
   · have : isPend c o.id = true := by
       unfold isPend; rw [List.any_eq_true]; exact ⟨o, ho, by simp [h0]⟩
     rw [p o.id] at this; cases this
   · exact h0
+
+/-- `a` mentions `b` (`a` an instance of the file) -/
+def Mentions (es : List Entry) (a b : Nat) : Prop := ∃ refs, refsOf es a = some refs ∧ b ∈ refs
+
+/-- **the loaded set contains the dependency closure**: after any history, for every requested instance of the file, every
+    instance of the file it reaches through references (at any depth — no bound) is loaded too -/
+theorem C10_load_contains_deps (es : List Entry) (ids : List Nat) (fuel : Nat) (hf : es.length < fuel) :
+    ∃ c, loadAll cacheBeforeRead es fuel [] ids = .ok (c, ids.map (known es)) ∧
+      ∀ id ∈ ids, known es id = true → ∀ j, Reach (Mentions es) id j → known es j = true → c.has j = true := by
+  have hcb : cacheBeforeRead = true := rfl
+  rw [hcb]
+  obtain ⟨c, h, _, w, p, k⟩ := loadAll_spec es fuel hf ids [] (fun o ho => by cases ho) (fun x => rfl)
+  refine ⟨c, h, ?_⟩
+  -- one step: a cached instance's known references are cached
+  have step : ∀ a b, c.has a = true → Mentions es a b → known es b = true → c.has b = true := by
+    intro a b ha hm hkb
+    obtain ⟨refs, hr, hb⟩ := hm
+    unfold Cache.has at ha
+    rw [List.any_eq_true] at ha
+    obtain ⟨o, ho, hoid⟩ := ha
+    have hoid' : o.id = a := by simpa using hoid
+    have hne : o.resolved ≠ none := by
+      intro h0
+      have : isPend c o.id = true := by
+        unfold isPend; rw [List.any_eq_true]; exact ⟨o, ho, by simp [h0]⟩
+      rw [p o.id] at this; cases this
+    exact (w o ho).2.2 hne refs (by rw [hoid']; exact hr) b hb hkb
+  intro id hid hk j hreach
+  induction hreach with
+  | single hm => exact step id _ (k id hid hk) hm
+  | tail hprev hm ihm =>
+    intro hkj
+    rename_i m j'
+    have hkm : known es m = true := by
+      obtain ⟨refs, hr, _⟩ := hm
+      simp [known, hr]
+    exact step m j' (ihm hkm) hm hkj
 
 /-- The code as it was (instance cached only after `getRealInstance` returns): on the two-instance cycle
     `#1=N('a',#2); #2=N('b',#1);` `loadInstance(1)` never returns — for every fuel the model runs out of it
